@@ -510,6 +510,7 @@ def s_init(method):
                 "compute": draw(st.sampled_from(["none", "none", "single2", "single3", "dict"])), "method": method}
         if method == "integrate":
             init["small"] = draw(st.booleans())
+        init["progbar"] = draw(st.sampled_from([False, False, False, True]))
         if hrep.startswith("tuple"):
             init["method"] = draw(st.sampled_from(["solve", "integrate", "expm"]))
         return init
@@ -554,6 +555,8 @@ class Hist:
         comp = self.rec.compute()
         if comp is not None:
             kw["compute"] = comp
+        if init.get("progbar"):
+            kw["progbar"] = True  # update_to re-installs the step callback around a progress bar; at_times wraps ts
         self.dead = False
         self.first = True
         self.t = self.t0
@@ -668,7 +671,7 @@ def fin_hist(h):
     sd = h.init["state"]
     skind = "ket" if sd["kind"] == "ket" else ("dop-pure" if sd["rank"] == 1 else "dop-mixed")
     cls = [f"s={skind}", f"form={sd['form']}", f"h={h.init['hrep']}", f"hk={h.init['ham']['kind']}", f"cb={h.init['compute']}",
-           "t0=0" if h.t0 == 0 else "t0!=0", f"m={h.init['method']}"]
+           "t0=0" if h.t0 == 0 else "t0!=0", f"m={h.init['method']}"] + (["progbar"] if h.init.get("progbar") else [])
     if h.init.get("small"):
         cls.append("dopri5")
     if h.dead:
@@ -880,7 +883,7 @@ def s_callbacks(draw, tier):
     return {"method": method, "ham": ham, "hrep": draw(st.sampled_from(reps)), "state": state, "t0": draw(st.sampled_from([0.0, 0.7, -0.7])),
             "dts": draw(st.lists(st.sampled_from(dts), min_size=1, max_size=4)),
             "compute": draw(st.sampled_from(["single2", "single3", "dict", "dict1"])), "small": draw(st.booleans()),
-            "use_at_times": draw(st.booleans())}
+            "use_at_times": draw(st.booleans()), "progbar": draw(st.sampled_from([False, False, True]))}
 
 
 def run_callbacks(case):
@@ -899,6 +902,8 @@ def run_callbacks(case):
     rec = Recorder(case["compute"])
     ham = make_ham(Hd, hrep, real_dtype=bool(hd.get("real_dtype")))
     kw = {"int_small_step": True} if (m == "integrate" and case["small"]) else {}
+    if case.get("progbar"):
+        kw["progbar"] = True
     evo = qu.Evolution(make_state(p0, sd["form"]), ham, t0=t0, method=m, compute=rec.compute(), **kw)
     ents = rec.entries(evo.results)
     if ents:
@@ -927,7 +932,8 @@ def run_callbacks(case):
             if rel_err(shown, to_dense(evo.pt), floor=ctx.n0) > 1e-14:
                 raise Violation("results-not-reported-state", **info)
         lo = t
-    return {"nt": True, "cls": [f"m={m}", f"cb={case['compute']}", f"h={hrep}", f"s={sd['kind']}", "at_times" if it is not None else "update_to"],
+    return {"nt": True, "cls": [f"m={m}", f"cb={case['compute']}", f"h={hrep}", f"s={sd['kind']}", "at_times" if it is not None else "update_to"]
+            + (["progbar"] if case.get("progbar") else []),
             "err": ctx.err()}
 
 
@@ -945,7 +951,7 @@ def s_int_stop(draw, tier):
             "state": state, "t0": draw(st.sampled_from([0.0, 0.7, -0.7])), "T": draw(st.sampled_from([0.5, 1.5, 3.0])),
             "thr": draw(st.sampled_from([0.0, 0.1, 0.5, 0.9, 1.2])), "nargs": draw(st.sampled_from([2, 3])),
             "ret": draw(st.sampled_from(["stop", "stop", "stop", "zero", "none"])), "compute": draw(st.sampled_from(["none", "single2", "dict"])),
-            "small": draw(st.booleans())}
+            "small": draw(st.booleans()), "progbar": draw(st.sampled_from([False, False, True]))}
 
 
 def run_int_stop(case):
@@ -981,6 +987,8 @@ def run_int_stop(case):
     if rec.compute() is not None:
         kw["compute"] = rec.compute()
     ham = make_ham(Hd, case["hrep"])
+    if case.get("progbar"):
+        kw["progbar"] = True
     if m != "integrate":
         # documented: int_stop is only for 'integrate'
         try:
@@ -1012,7 +1020,8 @@ def run_int_stop(case):
             raise Violation("results-miss-final-time", got=last, want=te, **info)
     early = stopping and te < t0 + T - 1e-9
     return {"nt": True, "cls": ["stopped-early" if early else ("stopped-at-end" if stopping else "ran-through"), f"nargs={case['nargs']}",
-                                f"ret={case['ret']}", f"cb={case['compute']}", f"h={case['hrep']}", f"s={sd['kind']}"], "err": ctx.err()}
+                                f"ret={case['ret']}", f"cb={case['compute']}", f"h={case['hrep']}", f"s={sd['kind']}"]
+            + (["progbar"] if case.get("progbar") else []), "err": ctx.err()}
 
 
 SUBCHECKS = [
@@ -1030,7 +1039,7 @@ SUBCHECKS = [
                   "(non-uniform, repeated), at_times; evo.t, evo.pt, every callback event vs oracle of its own time; nt as RULE"),
     SubCheck("seq_expm", machine=machine("expm"), examples=(200, 2500), shards=(1, 4),
              rule="history machine on method='expm' (dense/csr/csc; ket, dop, sparse states with sparse H): non-decreasing times, at_times; nt as RULE"),
-    SubCheck("timedep", run_timedep, s_timedep, examples=(150, 2500), shards=(2, 6),
+    SubCheck("timedep", run_timedep, s_timedep, examples=(150, 1800), shards=(2, 6),
              rule="callable H(t)=H0+f(t)H1 (f: cos, linear, quadratic, const; generic or commuting H1; dense or sparse return) with both steppers, "
                   "ket/dop, t0, 1-4 requested times via update_to/at_times, callbacks incl. H(t) seen by 3-argument callbacks; "
                   "nt: ||H||*T >= 0.05 and f not constant"),
